@@ -114,9 +114,9 @@ Proof. exact (@wf_ext). Qed.
 Check matrix_ext : forall (A : Arith) (a b : matrix A), wf a -> wf b -> rows a = rows b -> cols a = cols b ->
   (forall i j, i < rows a -> j < cols a -> entry a i j = entry b i j) -> a = b.
 Print Assumptions matrix_ext.
-Example matrix_ext_nonvacuous :   (* the hypotheses hold for a matrix and its double transpose *)
-  exists t, transpose_in_place (mkM (A:=AQ) [q 1 1; q 2 1; q 3 1; q 4 1; q 5 1; q 6 1] 2 3) = Ok t /\ wf t /\ rows t = 3 /\ cols t = 2.
-Proof. eexists. split; [vm_compute; reflexivity|]. repeat split. Qed.
+Example matrix_ext_nonvacuous :   (* two well-formed matrices of the same shape *)
+  wf (mkM (A:=AQ) [q 1 1; q 2 1; q 3 1; q 4 1; q 5 1; q 6 1] 3 2) /\ wf (mkM (A:=AQ) (repeat (q 1 2) 6) 3 2).
+Proof. split; reflexivity. Qed.
 
 Theorem transpose_involutive : forall (A : Arith) (m : matrix A), wf m ->
   exists t, transpose_in_place m = Ok t /\ transpose_in_place t = Ok m.
